@@ -893,6 +893,20 @@ class Interp:
         m = re.match(r"^<(.*) as (.*)>::(\w+)(?:::<.*>)?$", callee, re.S)
         if m:
             method = m.group(3)
+            # generic scalar parameter instantiated with f64 (e.g. `<Scalar as Mul<f64>>::mul`)
+            if method in ("add", "sub", "mul", "div", "neg") and args:
+                dn = [self.auto_deref_num(a) for a in args]
+                if all(isinstance(a, Num) for a in dn):
+                    if method == "neg":
+                        return self.dom.neg(dn[0])
+                    return self.binop(method.capitalize(), dn[0], dn[1])
+            if method in ("add_assign", "sub_assign", "mul_assign", "div_assign") and len(args) == 2 \
+                    and isinstance(args[0], Ref) and isinstance(read_path(args[0].cell, args[0].path), Num) \
+                    and isinstance(self.auto_deref_num(args[1]), Num):
+                cur = read_path(args[0].cell, args[0].path)
+                write_path(args[0].cell, args[0].path,
+                           self.binop(method.split("_")[0].capitalize(), cur, self.auto_deref_num(args[1])))
+                return UNIT
             f = self.p.find_method(method, args)
             if f is None:
                 raise Unsupported("no crate impl for %s with args %r" % (callee[:120], [type(a).__name__ for a in args]))
